@@ -30,7 +30,18 @@ def main(tier):
         xs = [x[0] / x[1] for x in g["xs"]]
         ys = [y[0] / y[1] for y in g["ys"]]
 
+        import collections as _c
+
+        class Samples(list):
+            """a list subclass of the application"""
+
+        NT = {n_: _c.namedtuple("Point%d" % n_, ["c%d" % i_ for i_ in range(n_)]) for n_ in range(1, 6)}
+
         def cont(vals, kind):
+            if kind == "namedtuple":
+                return NT[len(vals)](*vals) if len(vals) in NT else tuple(vals)
+            if kind == "list subclass":
+                return Samples(vals)
             return {"list": list(vals), "tuple": tuple(vals), "ndarray": numpy.array(vals, dtype=float)}[kind]
 
         def build(rec, vals, kind):
@@ -54,6 +65,9 @@ def main(tier):
             combos = [(ka, kb) for ka in KINDS for kb in KINDS]
             if not thorough:
                 combos = rng.sample(combos, 2)
+            # values held in a subclass of tuple / list (a namedtuple of coordinates, a list type of the application): the same results
+            if thorough or rng.random() < 0.25:
+                combos = combos + [rng.choice([("namedtuple", "list subclass"), ("list subclass", "ndarray"), ("tuple", "namedtuple"), ("namedtuple", "namedtuple")])]
             want_q = [[e["c"], e["u"], e["e"]] for e in row["q"]]
             want_v = [v[0] / v[1] if v[1] else None for v in row["vs"]]
             key = {"r1": row["r1"], "r2": row["r2"], "op": row["op"]}
